@@ -132,10 +132,13 @@ def autoCert (ncool nint : Nat) (tyf : Nat → Nat) (nb : Nat → List Nat) (don
   && ((List.range ncool).all fun i =>
       (tyf (pi i) == tyf i)
       && ((nb (pi i)).length == (nb i).length)
-      && ((nb i).all fun j => (nb (pi i)).contains (pi j)))
-  && ((List.range (ncool - nint)).all fun k =>
-      let i := nint + k
-      donorB (pi i) == (donorA i).map pi)
+      && ((nb i).all fun j => (nb (pi i)).contains (pi j))
+      && (decide (pi i < nint) == decide (i < nint))
+      && (decide (i < nint)
+          || ((donorB (pi i) == (donorA i).map pi)
+              && (match donorA i with
+                  | none => true
+                  | some j => decide (j < ncool)))))
 
 /-- pins: `sigma` permutes the pins and carries the pin → subchannel incidence along `pi` -/
 def pinAutoCert (npin : Nat) (pinrow : Nat → List Nat) (pi sigma : Nat → Nat) : Bool :=
